@@ -8,7 +8,7 @@ use passkey_types::ctap2::{get_assertion, make_credential, Aaguid, AttestedCrede
 use serde::{Deserialize, Serialize};
 use serde_json::{json, Value};
 
-const RPS: [&str; 3] = ["", "example.com", "bücher.example"];
+const RPS: [&str; 6] = ["", "example.com", "bücher.example", "Example.COM", "android:apk-key-hash:AbCd_-Ef", "example.com."];
 const COUNTERS: [Option<u32>; 5] = [None, Some(0), Some(1), Some(0x8000_0000), Some(0xFFFF_FFFF)];
 const ID_LENS: [usize; 8] = [0, 1, 16, 64, 255, 256, 1023, 65535];
 
@@ -35,7 +35,7 @@ fn flag_subsets() -> Vec<u8> {
 
 pub fn cases(tier: Tier) -> Vec<Case> {
     let mut v = vec![];
-    for rp in 0..3u8 {
+    for rp in 0..6u8 {
         for counter in 0..5u8 {
             for flags in flag_subsets() {
                 for assign_flags in [false, true] {
@@ -48,6 +48,10 @@ pub fn cases(tier: Tier) -> Vec<Case> {
                     for attested in atts {
                         for ext in 0..4u8 {
                             let long = attested.map_or(0, |a| a.1) > 300;
+                            // RP ids 3.. (upper case, android facet, trailing dot) matter for the hash only
+                            if rp >= 3 && attested.map_or(0, |a| a.1) > 64 {
+                                continue;
+                            }
                             // the 65535-byte ids are expensive: keep one rp/counter slice of them
                             if attested.map_or(0, |a| a.1) == 65535 && !(rp == 1 && counter == 2) {
                                 continue;
@@ -432,7 +436,7 @@ pub fn run(ctx: &Ctx) -> Result<Run, String> {
     }
     let mut run = Run::from_stats(
         "exploration",
-        "full product RP id {'', ascii, Unicode} x counter {None,0,1,2^31,2^32-1} x all 16 subsets of {UP,UV,BE,BS} (through set_flags and by assigning the public field) x attested data {absent, AAGUID 0/pattern x id length 0,1,16,64,255,256,1023,65535} x extensions {none, hmac-secret true, hmac-secret-mc bytes, assertion hmac-secret}; each encoding is parsed by an independent byte-level parser, round-tripped, every strict prefix decoded (must be rejected) and every position replaced by 16 boundary values (all 256 for the flags byte and for a representative subset of encodings); thorough adds all two-byte corruptions of the two shortest encodings. plus every sequence of up to 3 (4 thorough) setter calls out of 11 (flags, attested data, make/assert extension outputs incl. None and empty) after the constructor: AT/ED set exactly when the section is present, own encoding decodes to an equal value. Every case is a distinct encoding",
+        "full product RP id {'', ascii, Unicode, upper-case ascii, android facet with upper case, trailing dot} x counter {None,0,1,2^31,2^32-1} x all 16 subsets of {UP,UV,BE,BS} (through set_flags and by assigning the public field) x attested data {absent, AAGUID 0/pattern x id length 0,1,16,64,255,256,1023,65535} x extensions {none, hmac-secret true, hmac-secret-mc bytes, assertion hmac-secret}; each encoding is parsed by an independent byte-level parser, round-tripped, every strict prefix decoded (must be rejected) and every position replaced by 16 boundary values (all 256 for the flags byte and for a representative subset of encodings); thorough adds all two-byte corruptions of the two shortest encodings. plus every sequence of up to 3 (4 thorough) setter calls out of 11 (flags, attested data, make/assert extension outputs incl. None and empty) after the constructor: AT/ED set exactly when the section is present, own encoding decodes to an equal value. Every case is a distinct encoding",
         true,
         stats,
     );
